@@ -775,7 +775,7 @@ def write_evidence(prop, tier, seed, info, meta, my_units, my_clauses, fres, my_
                 "label": "bounded stand-in for src/backends/rust.rs (quote!/proc_macro2 token streams are outside Verus' reach; never counted as proved)",
                 "what": "the real write_module is run on accepted inputs; the written file is parsed with syn and each emitted item compared with the resolved item (visibility, derives, repr, docs, field order/types, size check, accessors, wrapper signature / address literal by value / ABI / call arguments, enum discriminants as rustc assigns them, AsRef/AsMut set, prologue/epilogue placement, one file per module); C19/C20 compare output bytes",
                 "emitted_files_checked": witness.get("emitted_files_checked"),
-                "bound": "the emit corpus of tools/replay/src/emit_corpus.rs (about 60 programs x pointer sizes 4 and 8) plus every 13th (quick tier: 97th) accepted input of the other families"}}
+                "bound": "the emit corpus of tools/replay/src/emit_corpus.rs (about 70 programs x pointer sizes 4 and 8), generated programs of tools/replay/src/gen.rs (150 per pointer size quick, 2500 thorough; only accepted ones are checked), plus every 13th (quick tier: 97th) accepted input of the other families"}}
     if note:
         ev["coverage"]["note"] = note
     evdir = os.path.join(VERIF, "evidence") if os.path.realpath(REPO[0]) == "/repo" else os.path.join(WORK, "evidence-scratch")
